@@ -59,6 +59,7 @@ type setupT struct {
 	Suppress bool     `json:"suppress"`
 	Def      [3]int   `json:"def"`
 	Watching []bool   `json:"watching"`
+	NV       bool     `json:"nv,omitempty"`    // the config type has no Verify method
 	Blank    []bool   `json:"blank,omitempty"` // the source is a sourcewrap.Blank (its updates go through SetSource)
 	Inits    []svJSON `json:"inits"`
 }
@@ -141,8 +142,8 @@ func (s setupT) coq() string {
 	for i := range s.Inits {
 		srcs = append(srcs, fmt.Sprintf("(%s, %s)", coqfmt.Bool(s.Watching[i]), s.Inits[i].coq()))
 	}
-	return fmt.Sprintf("(mkSetup (mkParams %s %s %s) (mkCfg %d %d %d) %s)", coqfmt.Bool(s.Skip), coqfmt.Bool(s.Delay),
-		coqfmt.Bool(s.Suppress), s.Def[0], s.Def[1], s.Def[2], coqfmt.List(srcs))
+	return fmt.Sprintf("(mkSetup (mkParams %s %s %s) (mkCfg %d %d %d) %s %s)", coqfmt.Bool(s.Skip), coqfmt.Bool(s.Delay),
+		coqfmt.Bool(s.Suppress), s.Def[0], s.Def[1], s.Def[2], coqfmt.List(srcs), coqfmt.Bool(s.NV))
 }
 
 var monPoints = map[string]int{"mon.loop": 0, "mon.submit-err": 1, "mon.reply": 2, "mon.store": 3, "mon.updates": 4,
@@ -201,7 +202,7 @@ type world struct {
 	oracleDue  bool     // an update was received since the oracle last ran
 	blanks     map[int]*sourcewrap.Blank
 	blankLock  map[int]bool // a Watcher was handed to the Blank: SetSource is no longer allowed
-	tokens     map[int]dials.CfgSerial[Cfg]
+	tokens     map[int]any
 
 	steps  []string // printed (label, obs) pairs
 	events []string // events of the step in progress (without verify calls)
@@ -215,7 +216,7 @@ type world struct {
 func newWorld(s setupT) *world {
 	return &world{setup: s, threads: map[int]*thread{}, curReq: -1, curEnable: -1, replied: map[int]bool{}, eresp: map[int]bool{},
 		acked: map[int]bool{}, slots: map[int]bool{}, unreg: map[int]dials.UnregisterCBFunc{}, unregTrue: map[int]bool{},
-		tags: map[string]bool{}, counts: map[string]int{}, nextTid: 1, nextH: 1, tokens: map[int]dials.CfgSerial[Cfg]{}}
+		tags: map[string]bool{}, counts: map[string]int{}, nextTid: 1, nextH: 1, tokens: map[int]any{}}
 }
 
 func (w *world) serialOf(c *Cfg) uint64 {
@@ -248,7 +249,7 @@ func (w *world) onErr(ctx context.Context, err error, old, nw *Cfg) {
 	}
 	w.r.enterCallback(-1, fmt.Sprintf("OCall (OIErr %d %d %s)", kind, w.serialOf(old), rej))
 }
-func (w *world) userCB(h int) dials.NewConfigHandler[Cfg] {
+func (w *world) userCB(h int) func(ctx context.Context, old, nw *Cfg) {
 	return func(ctx context.Context, old, nw *Cfg) {
 		n := "None"
 		if nw != nil {
@@ -296,10 +297,15 @@ func (w *world) start() (verifs string, res int, init string) {
 			srcs = append(srcs, s)
 		}
 	}
-	p := dials.Params[Cfg]{OnWatchedError: w.onErr, OnNewConfig: w.onNew, SkipInitialVerification: w.setup.Skip,
-		DelayInitialVerification: w.setup.Delay, CallGlobalCallbacksAfterVerificationEnabled: w.setup.Suppress}
-	def := newCfg(w.setup.Def[0], w.setup.Def[1], w.setup.Def[2])
-	d, err := p.Config(r.ctx, def, srcs...)
+	var d dialsAPI
+	var err error
+	if w.setup.NV {
+		def := (*CfgNV)(newCfg(w.setup.Def[0], w.setup.Def[1], w.setup.Def[2]))
+		d, err = configure(r.ctx, w.setup, def, func(p *CfgNV) *Cfg { return (*Cfg)(p) }, w.onNew, w.onErr, srcs)
+	} else {
+		d, err = configure(r.ctx, w.setup, newCfg(w.setup.Def[0], w.setup.Def[1], w.setup.Def[2]),
+			func(p *Cfg) *Cfg { return p }, w.onNew, w.onErr, srcs)
+	}
 	verifs = w.takeVerifs()
 	if err != nil {
 		res = 1
@@ -343,7 +349,7 @@ func (w *world) freshOracle() {
 	p := dials.Params[Cfg]{SkipInitialVerification: true}
 	fresh, err := p.Config(context.Background(), newCfg(w.setup.Def[0], w.setup.Def[1], w.setup.Def[2]), srcs...)
 	if err == nil {
-		if f := fresh.View(); w.skipV || f.A <= f.N.B {
+		if f := fresh.View(); w.skipV || w.setup.NV || f.A <= f.N.B {
 			w.expected = f
 		}
 	}
@@ -397,12 +403,11 @@ func (w *world) cbCode() int {
 
 // observe prints the observation after a step
 func (w *world) observe(verifsFirst bool) string {
-	cfg, tok := w.r.d.ViewVersion()
-	s := dials.VerifSerial(tok)
+	cfg, _, s := w.r.d.ViewVersion()
 	if _, ok := w.r.serials[cfg]; !ok {
 		w.r.serials[cfg] = s
 	}
-	cb, ctl := dials.VerifQueueLens(w.r.d)
+	cb, ctl := w.r.d.QueueLens()
 	if cb > w.maxCbq {
 		w.maxCbq = cb
 	}
@@ -488,7 +493,7 @@ func errClass(err error) (string, string) {
 	switch {
 	case err == nil:
 		return "RetNil", "nil"
-	case errors.Is(err, context.Canceled):
+	case errors.Is(err, context.Canceled) || errors.Is(err, context.DeadlineExceeded):
 		return "RetCtxErr", "ctx"
 	case errors.Is(err, errVerify):
 		return "RetVerifyErr", "verify"
@@ -516,27 +521,32 @@ func (w *world) spawn(t *thread, f func() (string, string)) {
 func (w *world) execStart(l label) {
 	op := l.Op
 	t := &thread{tid: l.Tid, op: op, pc: "done"}
-	t.ctx, t.cancel = context.WithCancel(context.Background())
+	if l.Tid%2 == 0 {
+		// a context that carries a custom cause: the library must still report a context error
+		ctx, cancel := context.WithCancelCause(context.Background())
+		t.ctx, t.cancel = ctx, func() { cancel(errCause) }
+	} else {
+		t.ctx, t.cancel = context.WithCancel(context.Background())
+	}
 	w.threads[l.Tid] = t
 	w.order = append(w.order, l.Tid)
 	d := w.r.d
 	w.counts["op-"+op.K]++
 	switch op.K {
 	case "view", "token":
-		cfg, tok := d.ViewVersion()
+		cfg, tok, serial := d.ViewVersion()
 		if _, ok := w.r.serials[cfg]; !ok {
-			w.r.serials[cfg] = dials.VerifSerial(tok)
+			w.r.serials[cfg] = serial
 		}
 		if op.K == "token" {
 			w.slots[op.Slot] = true
 			w.tokens[op.Slot] = tok
 		}
-		w.events = append(w.events, fmt.Sprintf("ORet %d (RetView (%d, %s))", l.Tid, dials.VerifSerial(tok), cfgCoq(cfg)))
+		w.events = append(w.events, fmt.Sprintf("ORet %d (RetView (%d, %s))", l.Tid, serial, cfgCoq(cfg)))
 	case "events":
-		select {
-		case c := <-d.Events():
+		if c, ok := d.TryEvent(); ok {
 			w.events = append(w.events, fmt.Sprintf("ORet %d (RetEvents (Some %s))", l.Tid, w.vc(c)))
-		default:
+		} else {
 			w.events = append(w.events, fmt.Sprintf("ORet %d (RetEvents None)", l.Tid))
 		}
 	case "offer":
@@ -574,14 +584,14 @@ func (w *world) execStart(l label) {
 		})
 		// no event: the goroutine blocks in its offering select
 	case "register":
-		var tok dials.CfgSerial[Cfg]
+		tok := d.ZeroToken()
 		if !op.Zero {
 			tok = w.tokens[op.Slot]
 		}
 		h := op.H
 		t.pc = "starting"
 		w.spawn(t, func() (string, string) {
-			u := d.RegisterCallback(t.ctx, tok, w.userCB(h))
+			u := d.Register(t.ctx, tok, w.userCB(h))
 			if u == nil {
 				return "RetRegNil", "regnil"
 			}
@@ -607,15 +617,14 @@ func (w *world) execStart(l label) {
 		w.enableSeen = true
 		t.pc = "starting"
 		w.spawn(t, func() (string, string) {
-			cfg, tok, err := d.EnableVerification(t.ctx)
+			cfg, s, err := d.Enable(t.ctx)
 			switch {
 			case err == nil:
-				s := dials.VerifSerial(tok)
 				if cfg == nil {
 					s = 424242
 				}
 				return fmt.Sprintf("(RetEnable (EOk (%d, %s)))", s, cfgCoq(cfg)), "enable-ok"
-			case errors.Is(err, context.Canceled):
+			case errors.Is(err, context.Canceled) || errors.Is(err, context.DeadlineExceeded):
 				return "RetCtxErr", "ctx"
 			}
 			return "(RetEnable EErr)", "enable-err"
@@ -647,7 +656,7 @@ func (w *world) readyArms(t *thread) []int {
 	if t.cancelled {
 		a = append(a, 0)
 	}
-	cb, ctl := dials.VerifQueueLens(w.r.d)
+	cb, ctl := w.r.d.QueueLens()
 	switch t.pc {
 	case "await-reply":
 		if w.replied[t.tid] {
@@ -811,7 +820,7 @@ func (w *world) execRecv(l *label) {
 	case "ctl":
 		w.curEnable = w.ctlq[0]
 		w.ctlq = w.ctlq[1:]
-		if v := w.r.d.View(); w.skipV && v.A <= v.N.B {
+		if v := w.r.d.View(); w.skipV && (w.setup.NV || v.A <= v.N.B) {
 			w.skipV = false // the monitor verifies the installed config: verification is on from here
 		}
 	case "offer":
@@ -833,11 +842,11 @@ func (w *world) execRecv(l *label) {
 
 func (w *world) execMonAct(l *label) {
 	point := w.monPoint
-	cb0, _ := dials.VerifQueueLens(w.r.d)
-	ev0 := len(w.r.d.Events())
+	cb0, _ := w.r.d.QueueLens()
+	ev0 := w.r.d.EventsLen()
 	w.r.release(whoMon)
 	w.noteMon(w.r.await(whoMon))
-	cb1, _ := dials.VerifQueueLens(w.r.d)
+	cb1, _ := w.r.d.QueueLens()
 	switch point {
 	case "mon.submit-err", "mon.submit-new", "mon.submit-srcerr":
 		if cb1 == cb0 {
